@@ -114,6 +114,17 @@ func ParsePull(s2c []byte, o rp.ListOpts, daemon, dryRun bool) (*PullTap, error)
 		}
 		t.Responses = append(t.Responses, resp)
 	}
+	if t.Phases == 2 {
+		// a server-side sender reports three statistics longs after the last phase
+		save := rd.Len()
+		r.Long()
+		r.Long()
+		r.Long()
+		if r.Err != nil {
+			t.Rest = save
+			return t, ferr
+		}
+	}
 	t.Rest = rd.Len()
 	return t, ferr
 }
